@@ -137,7 +137,12 @@ var c09Rules = []knownRule{
 			for _, r := range rows {
 				if tsEqual(r["start_date"], r["end_date"]) {
 					if t, err := time.Parse(time.RFC3339Nano, fmt.Sprint(r["end_date"])); err == nil {
-						r["end_date"] = t.Add(time.Second).UTC().Format(time.RFC3339Nano)
+						if n := t.Add(time.Second).UTC(); n.Year() <= 9999 {
+							r["end_date"] = n.Format(time.RFC3339Nano)
+						} else {
+							// the last representable second: move the start date instead
+							r["start_date"] = t.Add(-time.Second).UTC().Format(time.RFC3339Nano)
+						}
 						ch = true
 					}
 				}
